@@ -5,6 +5,8 @@
 #[macro_use]
 pub mod util;
 
+#[cfg(feature = "c01")]
+pub mod c01;
 #[cfg(feature = "c02")]
 pub mod c02;
 #[cfg(any(feature = "c03", feature = "c12", feature = "c13", feature = "c14", feature = "c01", feature = "c06", feature = "c18"))]
@@ -25,6 +27,11 @@ pub mod c08;
 #[cfg(feature = "c09")]
 pub mod c09;
 
+#[cfg(feature = "c10")]
+pub mod c10;
+#[cfg(feature = "c10")]
+#[path = "gen/c10.rs"]
+pub mod c10g;
 #[cfg(feature = "c11")]
 pub mod c11;
 #[cfg(feature = "c12")]
